@@ -109,7 +109,7 @@ def build_scenarios(prop, tier, rnd):
                 add(init, [[{"op": "abort", "k": 1, "c": "G"}], other, [{"op": "abort", "k": 1, "c": "A"}]], dfs)
         return sc
     pairs = []
-    if prop in ("C04", "C15"):
+    if prop in ("C04", "C07", "C15"):
         pairs += list(itertools.combinations_with_replacement(W, 2))
     if prop in ("C05", "C15"):
         pairs += [(r, w) for r in R for w in W if w.get("k", 1) == 1 or w["op"] in ("delr",)]
@@ -121,7 +121,7 @@ def build_scenarios(prop, tier, rnd):
             add(init, [[a], [b]], dfs, n=[10000, 1, 2][(i + j) % 3], kt=["string", "bytes", "u32"][i % 3])
     # one operation against a thread of TWO operations on the same key (commit, then removal/overwrite, before the
     # other commit is applied): all schedules with at most two pre-emptions
-    if prop in ("C04", "C05", "C15"):
+    if prop in ("C04", "C05", "C07", "C15"):
         k1 = lambda c: {"op": "put", "k": 1, "c": c}
         seq2 = []
         for c in ("A", "B"):
@@ -137,7 +137,7 @@ def build_scenarios(prop, tier, rnd):
         for i, (o, t2) in enumerate(combos):
             add(INITS[i % 2], [[o], t2], dict(dfs, runs=80 if q else 800))
     # three writers on one key / one content: all schedules with at most two pre-emptions (capped)
-    if prop in ("C04", "C15"):
+    if prop in ("C04", "C07", "C15"):
         k = lambda i, c: {"op": "put", "k": i, "c": c}
         trios = [[[k(1, "A")], [k(1, "A")], [{"op": "del", "k": 1}]], [[k(1, "A")], [k(2, "A")], [{"op": "del", "k": 1}]],
                  [[k(1, "B")], [k(1, "A")], [W[6]]], [[k(1, "A")], [{"op": "del", "k": 1}], [{"op": "del", "k": 2}]]]
@@ -150,7 +150,7 @@ def build_scenarios(prop, tier, rnd):
         th = [[rnd.choice(menu) for _ in range(2)] for _ in range(rnd.choice([2, 3]))]
         add(rnd.choice(INITS), th, rs, n=rnd.choice([1, 2, 10000]))
     # orphan clean-up against a put of the orphaned content, against removes
-    if prop in ("C04", "C15"):
+    if prop in ("C04", "C07", "C15"):
         for cl in ("cleanup", "quarantine", "cleanone"):
             for other in ([{"op": "put", "k": 1, "c": "C"}], [{"op": "put", "k": 2, "c": "C"}, {"op": "del", "k": 2}], [{"op": "del", "k": 1}]):
                 add([{"op": "put", "k": 1, "c": "A"}], [[{"op": cl, "c": "C"}], other], dfs, plant=[{"c": "C"}])
@@ -188,12 +188,14 @@ def add_guided(sc, prop, tier):
     return sum(len(g["scheds"]) for g in groups.values())
 
 
-PROP_INV = {"C04": ["Inv_C04", "Inv_C07"], "C05": ["Inv_C05"], "C15": ["Inv_C15"], "C08": ["Inv_C04", "Inv_C07"], "C13": ["Inv_C04", "Inv_C07"]}
+PROP_INV = {"C07": ["Inv_C07", "Inv_C04"], "C04": ["Inv_C04", "Inv_C07"], "C05": ["Inv_C05"], "C15": ["Inv_C15"], "C08": ["Inv_C04", "Inv_C07"], "C13": ["Inv_C04", "Inv_C07"]}
 # C08 (clean-up never harms live data / a put that is committing) and C13 (an abandoned transaction does not disturb a
 # concurrent one on the same key) are judged on their own program classes with the C04/C07 conjuncts of TraceConc
 # OPFAIL: a put / remove / checkpoint / clean-up call returned an error although nothing was injected
 # C06: (a blob whose bytes do not match its name, an in-place write under cas/) is what makes reads return mixed bytes
-PROP_TAGS = {"C04": ["C04:", "C07:", "C06:", "OPFAIL:"], "C05": ["C05:", "C06:", "C04:", "OPFAIL:"], "C15": ["C15:"], "C08": ["C04:", "C07:", "C06:", "OPFAIL:"],
+# C07 ("nothing more and nothing less" at the end of every schedule of an error-free program): a leaked blob is C07:,
+# a referenced content without its file is C04: - both are violations of C07
+PROP_TAGS = {"C07": ["C07:", "C04:", "OPFAIL:"], "C04": ["C04:", "C07:", "C06:", "OPFAIL:"], "C05": ["C05:", "C06:", "C04:", "OPFAIL:"], "C15": ["C15:"], "C08": ["C04:", "C07:", "C06:", "OPFAIL:"],
              "C13": ["C04:", "C07:", "C05:", "C06:", "OPFAIL:"]}
 
 
@@ -218,7 +220,7 @@ def run_conc_check(prop, tier, replay=None, merge=False):
         mc = run_mc(tier, PROP_INV[prop], liveness=(prop == "C15"))
         log(f"[{prop}] MCConc: {mc['states']} distinct states, violated={mc['violated']}")
         scen = build_scenarios(prop, tier, rnd)
-        nguided = add_guided(scen, prop, tier) if prop in ("C04", "C05", "C15") else 0
+        nguided = add_guided(scen, prop, tier) if prop in ("C04", "C05", "C07", "C15") else 0
     log(f"[{prop}] {len(scen)} concurrent programs ({nguided} TLC-generated schedules among them)")
     t1 = time.time()
     traces = run_harness(scen, prop, need_shim=False)
